@@ -2874,6 +2874,8 @@ static void struct_members(Token **rest, Token *tok, Type *ty) {
       Member *mem = calloc(1, sizeof(Member));
       mem->ty = declarator(&tok, tok, basety);
       mem->name = mem->ty->name;
+      if (is_variably_modified(mem->ty))
+        error_tok(mem->name ? mem->name : tok, "member has a variably modified type");
       mem->idx = idx++;
       mem->align = attr.align ? attr.align : mem->ty->align;
 
